@@ -189,7 +189,7 @@ PROPS = {
     'C11': dict(
         level='model_checking', units=[('K', 'K-KERN', None)],
         explanation='bounded model checking of every x86-64 kernel (13) and the 4 dispatchers under an arbitrary CPUID on the real code: symbolic buffer contents, symbolic checked index, canary bytes, Kani pointer checks; '
-                    'concrete lengths (quick: 0,1,W-1,W,W+1,2W+7; thorough: every length 0..3W-1), offsets {0,1,7}; concrete scalars for the table-shuffle kernels (quick 0x53; thorough 4 scalars x all lengths + all 256 scalars at W+3), '
+                    'concrete lengths (quick: 0,1,7,W,W+1,2W+7; thorough: every length 0..3W-1 for the add and binary kernels), offsets {0,1,7}; concrete scalars for the table-shuffle kernels (quick 0x53; thorough: scalars 0x53, 0x8E x {0,1,2 vector iterations} x tails 0..8, and all 256 scalars at length W+1 (vector kernels) or 2 (scalar-loop fallback kernels)), '
                     'symbolic scalar and symbolic packed words for the binary kernels. NOT a proof over all lengths.',
         assumptions=['Intel SDM models of _mm{,256,512}_shuffle_epi8, _bextr2_u32, _mm512_maskz_mov_epi8; nondeterministic CPUID/XGETBV', 'NEON kernels are cfg\'d out on this host: not covered'],
         not_decided=['lengths >= 3W, scalars x lengths product beyond the stated set', 'NEON']),
